@@ -1122,4 +1122,37 @@ theorem rule_matchtime (E : Env) (k : OK ρ) (hk : KeepsDepth k) (n : Nat) (r : 
           | error e => simp
           | ok cap => by_cases ht : truthy cap = true <;> simp [upd, ht, Gen.Peg.RULE_MATCHTIME]
 
+/-! #### leaf opcodes without byte reads -/
+
+/-- RULE_NCHAR: `n` characters must be left inside the CURRENT window -/
+theorem rule_nchar (E : Env) (k : OK ρ) (n : Nat) (c : Nat) (s : St) (pos : Nat) :
+    run E k (ops [] [(1, c)]) Gen.PegSkel.RULE_NCHAR s pos = Op.step E k n (.nchar c) s pos := by
+  skel_unfold Gen.PegSkel.RULE_NCHAR
+  simp only [ops, evalWE]
+  by_cases h : pos + c > s.textEnd <;> skel_simp
+
+theorem rule_notnchar (E : Env) (k : OK ρ) (n : Nat) (c : Nat) (s : St) (pos : Nat) :
+    run E k (ops [] [(1, c)]) Gen.PegSkel.RULE_NOTNCHAR s pos = Op.step E k n (.notnchar c) s pos := by
+  skel_unfold Gen.PegSkel.RULE_NOTNCHAR
+  simp only [ops, evalWE]
+  by_cases h : pos + c > s.textEnd <;> skel_simp
+
+theorem rule_line (E : Env) (k : OK ρ) (n : Nat) (tag : Nat) (s : St) (pos : Nat) :
+    run E k (ops [] [(1, tag)]) Gen.PegSkel.RULE_LINE s pos = Op.step E k n (.line tag) s pos := by
+  skel_unfold Gen.PegSkel.RULE_LINE
+  simp only [ops]
+  skel_simp
+
+theorem rule_column (E : Env) (k : OK ρ) (n : Nat) (tag : Nat) (s : St) (pos : Nat) :
+    run E k (ops [] [(1, tag)]) Gen.PegSkel.RULE_COLUMN s pos = Op.step E k n (.column tag) s pos := by
+  skel_unfold Gen.PegSkel.RULE_COLUMN
+  simp only [ops]
+  skel_simp
+
+theorem rule_argument (E : Env) (k : OK ρ) (n : Nat) (idx tag : Nat) (s : St) (pos : Nat) :
+    run E k (ops [] [(1, idx), (2, tag)]) Gen.PegSkel.RULE_ARGUMENT s pos = Op.step E k n (.argument idx tag) s pos := by
+  skel_unfold Gen.PegSkel.RULE_ARGUMENT
+  simp only [ops]
+  skel_simp
+
 end JanetModel.Peg.TieSkel
